@@ -44,6 +44,7 @@ func Explore(pkg *ssa.Package, fn string, sizes types.Sizes, budget time.Duratio
 		SCH = newScheduler()
 		sideMaps = map[*value]*hashmap{}
 		vtimeReset()
+		jsonStore = nil
 		i := newInterp(pkg.Prog, sizes)
 		call(i, nil, token.NoPos, pkg.Func("init"), nil)
 		call(i, nil, token.NoPos, f, nil)
